@@ -359,6 +359,9 @@ fn unpaired_generic<F: Fl>(c: &Case, obs: &mut Obs) -> PResult {
         ensure!(d <= r.tol, format!("C04/unpaired/bounds/{}{below}", c.conf.kind_name()), "{sname} ({}, na={na}, nb={nb}, {:?}): {name} bound {g:e}, reference {e:e} (diff {d:e} > tol {:e}; mean diff {:e}, se {:e}, dof {}, c {})", F::NAME, c.conf, r.tol, r.diff, r.se, r.dof, r.c);
         obs.headroom(&format!("unpaired/{}", F::NAME), d / r.tol, || json!({"na": na, "nb": nb, "conf": c.conf, "dof": r.dof}));
     }
+    if c.a.shape == "tied-sd" {
+        obs.class(if ra.var == rb.var { "unpaired/tied-standard-deviations" } else { "unpaired/tied-sd-generator-missed" });
+    }
     let resolves = r.tol < 1e-3 * r.c.abs() * r.se;
     if !ra.constant && !rb.constant && resolves {
         obs.nontrivial(&("unpaired", F::IS32, c.conf.kind, c.conf.l().to_bits(), crate::engine::hash_of(&(c.a.v64().iter().map(|x| x.to_bits()).collect::<Vec<_>>(), c.b.v64().iter().map(|x| x.to_bits()).collect::<Vec<_>>()))));
@@ -396,10 +399,28 @@ fn constant_sample(f32_: bool) -> impl Strategy<Value = Sample> {
         Sample { f32: f32_, shape: "constant".into(), data: crate::fl::xs(&vec![v; n]) }
     })
 }
+/// two samples of different sizes whose standard deviations tie exactly: p copies of +d, p copies of -d and one 0
+/// (variance d^2 for every p), shifted by small integers and scaled by a power of two — all arithmetic exact
+pub fn tied_sd_pair(f32_: bool) -> impl Strategy<Value = (Sample, Sample)> {
+    (1usize..12, 1usize..12, -6i32..=6, -6i32..=6, -8i32..=8, prop::collection::vec(any::<u16>(), 24)).prop_map(move |(pa, pb, sa, sb, e, perm)| {
+        let mk = |p: usize, shift: i32| -> Vec<f64> {
+            let mut v: Vec<f64> = vec![shift as f64];
+            for _ in 0..p {
+                v.push(shift as f64 + 1.0);
+                v.push(shift as f64 - 1.0);
+            }
+            let v: Vec<f64> = v.into_iter().map(|x| x * crate::fl::pow2(e)).collect();
+            gen::permute(&v, &perm)
+        };
+        let pb = if pb == pa { pb + 1 } else { pb };
+        (Sample { f32: f32_, shape: "tied-sd".into(), data: crate::fl::xs(&mk(pa, sa)) }, Sample { f32: f32_, shape: "tied-sd".into(), data: crate::fl::xs(&mk(pb, sb)) })
+    })
+}
 pub fn strategy(max_n: usize) -> impl Strategy<Value = Case> {
     any::<bool>().prop_flat_map(move |f32_| {
         let s = move || prop_oneof![12 => gen::sample_of(f32_, max_n, false).boxed(), 1 => constant_sample(f32_).boxed()];
-        (s(), s(), gen::conf(), 0u8..8, gen::cuts(4)).prop_map(|(a, b, conf, style, cuts)| Case { a, b, conf, style, cuts })
+        let pair = prop_oneof![19 => (s(), s()).boxed(), 1 => tied_sd_pair(f32_).boxed()];
+        (pair, gen::conf(), 0u8..8, gen::cuts(4)).prop_map(|((a, b), conf, style, cuts)| Case { a, b, conf, style, cuts })
     })
 }
 
@@ -458,7 +479,7 @@ pub fn run(run: &mut Run) {
     for s in UNPAIRED_STYLES {
         run.require_class(&format!("unpaired/style/{s}"));
     }
-    for c in ["lengths/first-longer", "lengths/second-longer", "unpaired/nontrivial/f32/unequal-sizes", "unpaired/nontrivial/f64/equal-sizes", "unpaired/one-constant-sample", "unpaired/variance-ratio>=2^10", "unpaired/f64/n>=100000+n2-9/two", "unpaired/f32/n2-9+n>=100000/lower", "unpaired/mirror/bit-exact", "paired/mirror/bit-exact"] {
+    for c in ["lengths/first-longer", "lengths/second-longer", "unpaired/nontrivial/f32/unequal-sizes", "unpaired/nontrivial/f64/equal-sizes", "unpaired/one-constant-sample", "unpaired/variance-ratio>=2^10", "unpaired/tied-standard-deviations", "unpaired/f64/n>=100000+n2-9/two", "unpaired/f32/n2-9+n>=100000/lower", "unpaired/mirror/bit-exact", "paired/mirror/bit-exact"] {
         run.require_class(c);
     }
     run.assumptions.push("correctness of Arithmetic itself is C01's business; the paired check is a differential one".into());
